@@ -32,16 +32,10 @@ impl<C: CommentsParser> MdParser<C> {
             tree_sitter::Query::new(&markdown_lang, "(html_block) @html_block").unwrap();
 
         let html_lang = tree_sitter_html::LANGUAGE.into();
-        let html_comments_parser = TreeSitterCommentsParser::new(
-            &html_lang,
-            Box::new(|node, source_code| {
-                if node.kind() == "comment" {
-                    Some(source_code[node.byte_range()].to_string())
-                } else {
-                    None
-                }
-            }),
-        );
+        // Blank the "<!--" and "-->" delimiters like the HTML parser does: a raw "-->" would
+        // otherwise complete an unfinished "<block" into a start tag with a "--" attribute.
+        let html_comments_parser =
+            crate::language_parsers::xml_style_comments_parser(&html_lang, "comment");
         Self {
             md_blocks_parser: md_parser,
             md_tree_sitter_parser,
